@@ -120,7 +120,7 @@ def part_write_and_cross(ctx):
     for c in cases[:20000]:
         ctx.nontriv(('write', c['pol'], c['dlm'], json.dumps(c['rows'])))
     ex = rcases_js[0]
-    ctx.sample({'part': 'cross py->js', 'policy': ex['pol'], 'delimiter': ex['dlm'], 'text_written_by_python': ex['texts'][0], 'read_by_js': got_js_reads[0][0]})
+    ctx.sample_safe(lambda: {'part': 'cross py->js', 'policy': ex['pol'], 'delimiter': ex['dlm'], 'text_written_by_python': ex['texts'][0], 'read_by_js': got_js_reads[0][0]})
 
 
 POLCODE = {'simple': 0, 'quoted': 1, 'quoted_rfc': 2, 'whitespace': 3, 'monocolumn': 4}
@@ -193,7 +193,9 @@ def part_readers(ctx):
         for t in c['texts'][:50]:
             if t:
                 ctx.nontriv(('read', c['pol'], c['comment_prefix'], c['has_header'], t))
-    ctx.sample({'part': 'readers', 'policy': cases[0]['pol'], 'text': cases[0]['texts'][1], 'python': gp[0][1], 'javascript': gj[0][1]})
+    k = next((i for i, c in enumerate(cases) if len(c['texts']) > 1 and isinstance(gp[i], list) and isinstance(gj[i], list)), None)
+    if k is not None:
+        ctx.sample_safe(lambda: {'part': 'readers', 'policy': cases[k]['pol'], 'text': cases[k]['texts'][1], 'python': gp[k][1], 'javascript': gj[k][1]})
 
 
 KNOWN_HEADER_PROBES = [('F3-paren', 'select (a1)', 'select (a1)'), ('F3-spaced-subscript', 'select a[ "x" ]', 'select a[ "x" ]'),
